@@ -156,12 +156,12 @@ func svCfgPre(pre *svVotePre, kind int) func(e *svEnv) {
 // sv:goal finalise changes an option only for a proposal in the passed store whose recorded tally passes and whose update is valid, then exactly the named option becomes exactly the proposed value (store and in-memory copy) and nothing else changes; an invalid update moves the passed proposal to the finalize-failed store with all options unchanged and the escrow intact; an unknown key or malformed text leaves the proposal where it is; finalise of a proposal voted down distributes without touching any option; finalise from any other stage and the second finalise change no option; creating a configuration-update proposal never changes an option, stored or in memory
 func SV_C14_config_update() {
 	svCurrencyLimit = 1
-	pre := &svVotePre{ptype: governance.ProposalTypeConfigUpdate, stages: []int{0, 2, 3, 4, 6}}
+	pre := &svVotePre{ptype: governance.ProposalTypeConfigUpdate, stages: []int{0, 2, 3, 4, 6}, plainValidators: true}
 	cs := svCfgCases[sv.Choice("cfg.update", len(svCfgCases))]
 	pre.update = cs.update
 	kind := sv.Choice("kind", 2)
 	if kind == 1 {
-		pre.stages = []int{0}
+		pre.stages = []int{2} // the other proposal's stage does not matter to a creation
 	}
 	e := svNewEnv(3, 20, svCfgPre(pre, 2))
 	// another option group was updated earlier in this block (its last-update height is the current one)
